@@ -324,6 +324,10 @@ def run(chk: Check, repo: Repo) -> None:
     check_pacer_owner(chk, repo)
     check_structure(chk, repo)
     check_unguarded_steps(chk, repo)
+    # "one at a time": the next telegram is handed over only after the confirmation wait of the previous one - which is a
+    # wait only if the event was cleared before this frame's hand-over (C14's confirmation obligations, shared)
+    from .c14 import check_confirmation
+    check_confirmation(chk, repo)
     chk.rule("E4 pairing by abstract path enumeration of one loop iteration of the consumer and the rate limiter over telegram kind x processing outcome (incl. exceptional exits through finally)")
     chk.rule("E5/E4 structure: FIFO queues, single consumer pair, in-line processing, sentinel shutdown")
     chk.assume("asyncio.Queue is FIFO; does not decide the measured 1/r spacing (event-loop clock)")
